@@ -1034,7 +1034,20 @@ class RealFormatAttribute(AttributeBase):
 
 
 class LeaveListAttribute(ListAttributeBase):
-    pass
+    """Leaves, vacations and blocking bookings of a resource.
+
+    The leaves of a resource group apply to everybody below it: a member that declares leaves
+    of its own adds to the inherited ones, it does not replace them.
+    """
+
+    extendsInherited = True
+
+    def extendInherited(self, value: Any) -> None:
+        """Put the (deep copied) leaves of the parent in front of the own ones."""
+        inherited = deep_clone(value) or []
+        if not isinstance(inherited, list):
+            inherited = [inherited]
+        self._value = inherited + list(self._value or [])
 
 
 class PropertyTreeNode(MessageHandler):
@@ -1194,6 +1207,8 @@ class PropertyTreeNode(MessageHandler):
                         # Only inherit if not already provided explicitly
                         if not my_attr.provided:
                             my_attr.inherit(parent_attr.get())
+                        elif getattr(my_attr, "extendsInherited", False):
+                            my_attr.extendInherited(parent_attr.get())
                 else:
                     if attrDef.inheritedFromProject:
                         val = self.project[attrDef.id]
